@@ -900,6 +900,37 @@ func (c *Ctx) runMeshRules(prefix string, pkgShort string) {
 				}
 				// is the receiver the vertex index of a mesh? (derived from getVertexToFace[OrNil])
 				if !derivesFromIndex(call.Call.Args[0], 0) {
+					// a helper that is handed the index: the guard is owed by
+					// the callers that pass a mesh's index
+					if prm := paramOrigin(call.Call.Args[0], 0); prm != nil {
+						h := prm.Parent()
+						pi := -1
+						for i, q := range h.Params {
+							if q == prm {
+								pi = i
+							}
+						}
+						for _, caller := range c.srcFuncs(p) {
+							for _, cb := range caller.Blocks {
+								for _, ci := range cb.Instrs {
+									site, ok := ci.(*ssa.Call)
+									if !ok || site.Call.StaticCallee() != h || pi < 0 || pi >= len(site.Call.Args) {
+										continue
+									}
+									if !derivesFromIndex(site.Call.Args[pi], 0) {
+										continue
+									}
+									c.analysed(qname(caller))
+									key := fmt.Sprintf("%s appends a face to the vertex index", qname(caller))
+									if absentFact(cb, faces) {
+										c.ok(prefix+".DEDUP", key, site.Pos(), "the helper that appends is called behind the 'face not yet in faces' edge")
+									} else {
+										c.bad(prefix+".DEDUP", key, site.Pos(), "a face is appended to the vertex index (through "+h.Name()+") without a dominating test that it is not already in the mesh: re-adding a face lists it twice (and Remove leaves a stale entry)")
+									}
+								}
+							}
+						}
+					}
 					continue
 				}
 				c.analysed(qname(fn))
@@ -1027,6 +1058,39 @@ func indexOfOtherMesh(fn *ssa.Function, v2f *types.Var, facesMap ssa.Value) bool
 		}
 	}
 	return other && !same
+}
+
+// paramOrigin: the parameter a value is a copy of (through loads of captured
+// variables and spilled locals), or nil.
+func paramOrigin(v ssa.Value, depth int) *ssa.Parameter {
+	if depth > 8 {
+		return nil
+	}
+	switch x := v.(type) {
+	case *ssa.Parameter:
+		return x
+	case *ssa.UnOp:
+		if x.Op == token.MUL {
+			return paramOrigin(x.X, depth+1)
+		}
+	case *ssa.FreeVar:
+		if b := freeVarBinding(x); b != nil {
+			return paramOrigin(b, depth+1)
+		}
+	case *ssa.Alloc:
+		var res *ssa.Parameter
+		for _, ref := range *x.Referrers() {
+			if st, ok := ref.(*ssa.Store); ok && st.Addr == ssa.Value(x) {
+				p := paramOrigin(st.Val, depth+1)
+				if p == nil || (res != nil && res != p) {
+					return nil
+				}
+				res = p
+			}
+		}
+		return res
+	}
+	return nil
 }
 
 func derivesFromIndex(v ssa.Value, depth int) bool {
